@@ -314,9 +314,16 @@ func (g *Gen) loopMods(li *loopInfo) (comps []string, ghosts []string) {
 						gs["$called:"+name] = true
 						gs["$ok:"+name] = true
 						gs["$count:"+name] = true
-						for gn := range g.ghostSorts {
-							if strings.HasPrefix(gn, "$res:"+name+":") {
-								gs[gn] = true
+						rs := cc.Signature().Results()
+						for ri := 0; ri < rs.Len(); ri++ {
+							gn := fmt.Sprintf("$res:%s:%d", name, ri)
+							gs[gn] = true
+							if g.ghostSorts[gn] == "" {
+								g.ghostSorts[gn] = g.st.sortOf(rs.At(ri).Type())
+								if g.ghostTypes == nil {
+									g.ghostTypes = map[string]types.Type{}
+								}
+								g.ghostTypes[gn] = rs.At(ri).Type()
 							}
 						}
 					}
@@ -340,6 +347,7 @@ func (g *Gen) collectSelectors() {
 	if g.con == nil {
 		return
 	}
+	seenDef := map[string]bool{}
 	var walk func(e *SExpr)
 	walk = func(e *SExpr) {
 		if e == nil {
@@ -350,6 +358,12 @@ func (g *Gen) collectSelectors() {
 		}
 		if e.Kind == SCall && e.Name == "result_of" && len(e.Args) == 2 {
 			g.selectors[selName(e.Args[0])] = true
+		}
+		if e.Kind == SCall {
+			if d, ok := g.eng.defs[e.Name]; ok && d.Body != nil && !seenDef[e.Name] {
+				seenDef[e.Name] = true
+				walk(d.Body)
+			}
 		}
 		walk(e.X)
 		walk(e.Y)
